@@ -54,6 +54,13 @@ BODIES = [
     "procedure(real), pointer :: p", "implicit none", "implicit real (a-h, o-z)", "implicit integer (i), real(8) (r)",
     "parameter (a = 1)", "parameter (a = 1, b = 2)", "dimension a(3)", "dimension a(3), b(2)", "save", "save a",
     "save /c/", "save :: a, /c/", "common a", "common /c/ a", "common // a", "common /c/ a, b /d/ e", "common a, b(3)",
+    # substrings of character literals (the parent string is a literal with blanks, brackets, doubled quotes, a kind prefix)
+    "c = \"hello world\"(1:5)", "c = 'it''s'(2:3)", "c = k_\"a b\"(1:1)", "c = 'a(b)'(2:)", "c = 'x,y' // \"p q\"(:1)", "print *, 'a b'(1:2), \"c, d\"",
+    "call s('a, b', \"c(d\", 'e)f')", "c = f('(', \")\")", "x = g('a''b, c', [1, 2], (/ 'p q', 'r,s' /))",
+    # implied DO in I/O lists, array constructors and DATA, with and without the stride, nested
+    "write(*,*) (a(i), i=1,n)", "print *, (a(i), i=1,n,2)", "read(5,*) ((b(i,j), i=1,2), j=1,3)", "write(6,*) x, (a(i), b(i), i=1,n), y",
+    "print *, (a(i), (b(i,j), j=1,i), i=1,n)", "x = [(i, i=1,n)]", "x = (/ (i*2, i=1,n,2) /)", "x = [((i+j, i=1,2), j=1,3)]",
+    "data ((b(i,j), i=1,2), j=1,3) /6*0/", "write(*,'(3i4)') (k(i), i=lo,hi)",
     "data a /1/", "data a, b /1, 2/", "data a /1/, b /2/", "data a /3*1/", "data (a(i), i = 1, 3) /1, 2, 3/",
     "equivalence (a, b)", "equivalence (a, b), (c, d(1))", "external f", "external :: f, g", "intrinsic sin",
     "intrinsic :: sin, cos", "namelist /n/ a", "namelist /n/ a, b /m/ c", "intent(in) a", "intent(in out) :: a",
